@@ -456,7 +456,10 @@ let run_case tk =
   | "scan" -> run_scan tk
   | _ -> pr "NOTMODELLED"
 
+exception Case_timeout
 let () =
+  let tmo = if Array.length Sys.argv > 2 then int_of_string Sys.argv.(2) else 60 in
+  Sys.set_signal Sys.sigalrm (Sys.Signal_handle (fun _ -> raise Case_timeout));
   let ic = open_in_bin Sys.argv.(1) in
   (try
      while true do
@@ -466,10 +469,13 @@ let () =
        | "CASE" :: id :: rest ->
            Buffer.clear buf;
            let tk = { t = Array.of_list rest; p = 0 } in
+           ignore (Unix.alarm tmo);
            (try run_case tk with
+            | Case_timeout -> Buffer.clear buf; pr "TIMEOUT"
             | Stop s -> pr "%s" s
             | Bad_case -> Buffer.clear buf; pr "BADCASE"
             | Stack_overflow -> Buffer.clear buf; pr "MODELSTACK");
+           ignore (Unix.alarm 0);
            print_string id; print_char ' '; print_string (Buffer.contents buf); print_newline ()
        | _ -> ()
      done
